@@ -127,13 +127,10 @@ theorem AInv_alloc (flags : List Bool) (live : List (List Nat)) (k : Nat) (h : A
   · exact pairwise_cons.mpr ⟨fun s hs j hj => hnot j hj s hs, h.2⟩
 
 /-- giving the indices of a live request back keeps the invariant for the others -/
-theorem AInv_dealloc (flags : List Bool) (live : List (List Nat)) (s : List Nat) (h : AInv flags live) (hs : s ∈ live) :
-    (∀ j ∈ s, flags[j]? = some true) ∧ AInv (setAll flags s false) (live.erase s) := by
-  refine ⟨fun j hj => (h.1 j).mpr ⟨s, hs, hj⟩, ?_⟩
-  obtain ⟨l1, l2, hnot, hsplit, herase⟩ := exists_erase_eq hs
-  rw [herase]
+theorem AInv_dealloc (flags : List Bool) (l1 l2 : List (List Nat)) (s : List Nat) (h : AInv flags (l1 ++ s :: l2)) :
+    (∀ j ∈ s, flags[j]? = some true) ∧ AInv (setAll flags s false) (l1 ++ l2) := by
+  refine ⟨fun j hj => (h.1 j).mpr ⟨s, by simp, hj⟩, ?_⟩
   have hpw := h.2
-  rw [hsplit] at hpw
   have hp1 : l1.Pairwise (fun a b => ∀ j, j ∈ a → j ∉ b) := (pairwise_append.mp hpw).1
   have hp2 := (pairwise_append.mp hpw).2.1
   have hp12 := (pairwise_append.mp hpw).2.2
@@ -154,7 +151,7 @@ theorem AInv_dealloc (flags : List Bool) (live : List (List Nat)) (s : List Nat)
         · exact hp12 s' h1 s mem_cons_self j hjs' hj
         · exact hs2 s' h2 j hj hjs'
     · simp only [hj, if_false]
-      rw [h.1 j, hsplit]
+      rw [h.1 j]
       constructor
       · rintro ⟨s', hs', hjs'⟩
         rcases mem_append.mp hs' with h1 | h2
